@@ -180,7 +180,6 @@ BUILTIN_FNS = {
 # builtins that need the environment (float / global-state code that stays hand-modelled) or the clock
 BUILTIN_FNS.update({
     "track_and_groundspeed": ("trackAndGroundspeed tenv.atan2deg", [MSG, BOOL], ("tuple", [OPT(NAT()), OPT(NAT())])),
-    "cpr_location": ("cprLocationArr", [("arr", NAT(), 2), ("arr", NAT(), 2), NAT(), INT()], OPT(("tuple", [RAT, RAT]))),
     "get_observer_coords": ("tenv.observer", [], OPT(("tuple", [RAT, RAT]))),
     "haversine": ("tenv.haversine", [RAT, RAT, RAT, RAT], RAT),
     "icao_to_country": ("icaoToCountry", [NAT()], ("tuple", [("sstr",), ("sstr",)])),
@@ -229,6 +228,7 @@ class FnTr:
         self.self_ty = ("struct", fn.impl_of) if fn.impl_of else None
         self.ret = rty(fn.ret, fn.impl_of) if fn.ret is not None else UNIT
         self.tmp = 0
+        self.tables = {}      # constant tables of the function (`let NAME = [literal, ..]`), each its own definition
         self.calls = set()
         self.uses = set()
         # functions of the bit / CRC / frame layer (TransBits.lean): `<<` is the wrapping shift of the operand's width, and
@@ -595,6 +595,8 @@ class FnTr:
         if ty[0] == "rat":
             if op in ("+", "-", "*", "/"):
                 return f"{A} {op} {B}", ty
+            if op == "%":
+                return f"ratFmod {A} {B}", ty
             raise TErr(f"operator {op} on f64")
         if ty[0] == "bool" and op in ("&", "|", "^"):
             return f"{A} {'&&' if op == '&' else '||' if op == '|' else '^^'} {B}", ty
@@ -618,11 +620,14 @@ class FnTr:
         if ty[0] == "int" and target[0] == "nat":
             return f"i32ToU32 {T}", target
         if ty[0] in ("nat", "int") and target[0] == "rat":
-            return f"({t} : Rat)", target
+            simple = all(c.isalnum() or c in "_.'" for c in t)
+            return (f"({t} : Rat)" if simple else f"(({t} : {'Nat' if ty[0] == 'nat' else 'Int'}) : Rat)"), target
         if ty[0] == "rat" and target[0] == "nat":
             return f"ratToU32 {T}", target
         if ty[0] == "rat" and target[0] == "rat":
             return t, target
+        if ty[0] == "rat" and target[0] == "int" and target[1] == 32:
+            return f"ratToI32 {T}", target
         if ty[0] == "int" and target[0] == "int":
             return t, target
         if ty[0] == "bool" and target[0] == "nat":
@@ -843,6 +848,14 @@ class FnTr:
                 return f"(({RV}.natAbs : Nat) : Int)", rt
             if name == "unsigned_abs":
                 return f"{RV}.natAbs", NAT(rt[1])
+        if rt[0] == "arr" and rt[2] == 2 and name in ("max", "min") and not args and rt[1][0] in ("nat", "int"):
+            # `[a, b].iter().max()`: an array is never empty
+            return f"some ({name} {RV}.1 {RV}.2)", OPT(rt[1])
+        if rt[0] == "rat":
+            if name == "abs":
+                return f"ratAbs {RV}", rt
+            if name == "floor":
+                return f"ratFloor {RV}", rt
         if rt[0] == "msg" and name == "len":
             return f"{RV}.length", NAT(64)
         # a method of a translated struct
@@ -941,8 +954,12 @@ class FnTr:
                 pre = ""
             out, ty = None, None
             chain = []
-            for p, g, body in arms:
+            bool_pair = (sty == BOOL and len(arms) == 2 and all(g is None and p[0] == "p_lit" and p[1][0] == "lit_bool" for p, g, _ in arms)
+                         and arms[0][0][1][1] != arms[1][0][1][1])
+            for ai, (p, g, body) in enumerate(arms):
                 c = self.pat_test(p, S, sty, env)
+                if bool_pair and ai == 1:
+                    c = None            # `true => .., false => ..`: the second arm is everything else
                 if g is not None:
                     gc = self.cond(g, env)
                     c = f"{c} ∧ {gc}" if c else gc
@@ -1242,6 +1259,8 @@ class FnTr:
             if init is None:
                 raise TErr("let without initialiser")
             dty = rty(ty, self.fn.impl_of) if ty is not None else None
+            if dty is None and pat[0] == "p_ident":
+                dty = self.let_hint(pat[1], init, rest)
             if els is not None:
                 # let PAT = e else { diverges };
                 env2 = dict(env)
@@ -1291,6 +1310,12 @@ class FnTr:
                 ity = dty
             env2 = dict(env)
             pt = self.pat(pat, ity, env2)
+            if init[0] == "array" and len(init[1]) >= 3 and pat[0] == "p_ident" and ity[0] in ("list", "msg") and \
+                    all(self.is_lit(x) or (x[0] == "tuple" and all(self.is_lit(y) for y in x[1])) for x in init[1]):
+                # a constant table: its own definition, so that theorems can name it
+                tname = self.ctx.lean_name(self.fn) + "." + lname(pat[1])
+                self.tables[tname] = f"def {tname} : {lty(ity)} :=\n  {it}"
+                it = tname
             return f"let {pt} := {it};\n" + cont(env2)
         if s[0] == "expr":
             e = s[1]
@@ -1686,9 +1711,80 @@ class FnTr:
             return t
         raise TErr("compound statement " + k0)
 
+    def let_hint(self, name, init, rest):
+        """the element type of an unannotated `let NAME = [(a, b), ..]` whose integer literals Rust types from their use:
+        `for &(x, y) in &NAME { .. return y; .. }` makes that component the function's return type (only a hint for the
+        literals - a wrong one does not type-check in Lean)"""
+        if init[0] != "array" or len(init[1]) < 3 or any(x[0] != "tuple" for x in init[1]):
+            return None
+        n = len(init[1][0][1])
+        comp = [RAT if init[1][0][1][i][0] == "lit_float" else None for i in range(n)]
+        def walk(node):
+            if isinstance(node, list):
+                for x in node:
+                    walk(x)
+            elif isinstance(node, tuple) and node:
+                if node[0] == "for":
+                    src = node[2]
+                    while src[0] == "paren" or (src[0] == "unary" and src[1] == "&"):
+                        src = src[1] if src[0] == "paren" else src[2]
+                    p = node[1]
+                    while p[0] == "p_ref":
+                        p = p[1]
+                    if src == ("path", [name]) and p[0] == "p_tuple" and len(p[1]) == n:
+                        names = [q[1] if q[0] == "p_ident" else None for q in p[1]]
+                        def rets(b):
+                            if isinstance(b, list):
+                                for x in b:
+                                    rets(x)
+                            elif isinstance(b, tuple) and b:
+                                if b[0] == "return" and b[1] is not None and b[1][0] == "path" and len(b[1][1]) == 1 and b[1][1][0] in names:
+                                    comp[names.index(b[1][1][0])] = self.ret
+                                for x in b:
+                                    rets(x)
+                        rets(node[3])
+                for x in node:
+                    walk(x)
+        walk(rest)
+        if any(c is None for c in comp):
+            return None
+        return ("list", ("tuple", comp))
+
+    def for_find(self, e, env, cont):
+        """for PAT in &LIST { if COND { return E; } }   ->   the first element that meets COND decides"""
+        _, pat, it, body = e
+        src = it
+        while src[0] in ("paren",) or (src[0] == "unary" and src[1] == "&") or (src[0] == "mcall" and src[2] == "iter"):
+            src = src[1] if src[0] != "unary" else src[2]
+        if body[2] is not None and not body[1]:
+            st = body[2]
+        elif body[2] is None and len(body[1]) == 1 and body[1][0][0] == "expr":
+            st = body[1][0][1]
+        else:
+            return None
+        if st[0] != "if" or st[3] is not None:
+            return None
+        blk = st[2]
+        rets = [x for x in blk[1] if not (x[0] == "expr" and x[1][0] == "macro" and x[1][1] in LOG_MACROS)]
+        if blk[2] is not None or len(rets) != 1 or rets[0][0] != "expr" or rets[0][1][0] != "return" or rets[0][1][1] is None:
+            return None
+        xs, xty = self.tr(src, env)
+        if xty[0] != "list":
+            return None
+        env2 = dict(env)
+        ptxt = self.pat(pat, xty[1], env2)
+        c = self.cond(st[1], env2)
+        val = self.tail_value(rets[0][1][1], env2, self.ret, {}, True)
+        return f"match {par(xs)}.find? (fun {par(ptxt)} => decide ({c})) with\n| some {par(ptxt)} => {val}\n| none => {par_block(cont(env))}"
+
     def tr_for(self, e, env, cont, acc):
         _, pat, it, body = e
         inner = it[1] if it[0] == "paren" else it
+        if self.contains_return(body) and not acc:
+            ff = self.for_find(e, env, cont)
+            if ff is not None:
+                return ff
+            raise TErr("for loop that leaves the function in a shape other than `if c { return e; }`")
         if inner[0] == "mcall" and inner[2] in ("iter", "enumerate"):
             enum = inner[2] == "enumerate"
             src = inner[1]
@@ -1822,7 +1918,10 @@ class FnTr:
             ret = lty(self.ret)
         name = self.ctx.lean_name(fn)
         sig = f"def {name} " + " ".join(params) + f" : {ret} :="
-        return sig + "\n" + indent(body, 2)
+        pre = "".join(t + "\n\n" for t in self.tables.values())
+        if pre:
+            pre += f"/-- `{fn.name}` itself (the definition above is its constant table) -/\n"
+        return pre + sig + "\n" + indent(body, 2)
 
 
 def desugar_locks(node):
@@ -1970,7 +2069,7 @@ TRANSLATE = [
     ("src/decoder/adsb/acas.rs", ["threat_encounter"]),
     ("src/decoder/adsb/ais.rs", ["ia5", "ais"]),
     ("src/decoder/adsb/icao.rs", ["get_wake_turbulence_category"]),
-    ("src/decoder/adsb/position.rs", ["cpr"]),
+    ("src/decoder/adsb/position.rs", ["cpr", "pmod", "fixed_lat", "signed_lon", "nl", "cpr_location"]),
     ("src/decoder/ehs/base.rs", ["ground_track", "heading"]),
     ("src/decoder/ehs/bds_4_0.rs", ["mcp_selected_altitude", "fms_selected_altitude", "barometric_pressure_setting", "target_altitude_source"]),
     ("src/decoder/ehs/bds_5_0.rs", ["roll_angle", "roll_angle_5_0", "track_angle", "track_angle_5_0", "track_angle_rate", "track_angle_rate_5_0",
@@ -2081,7 +2180,6 @@ def load_all(repo, plans=None):
 NOT_TRANSLATED = {
     "src/decoder/utils.rs": ("get_hex_message",),
     "src/decoder/utils/crc.rs": ("reminder",),
-    "src/decoder/adsb/position.rs": ("cpr_location", "signed_lon", "fixed_lat", "nl", "pmod"),
     "src/decoder/ehs/base.rs": ("track_and_groundspeed",),
     "src/decoder/bds/bds_1_7.rs": ("default",), "src/decoder/bds/bds_4_0.rs": ("default",), "src/decoder/bds/bds_5_0.rs": ("default",),
     "src/decoder/bds/bds_6_0.rs": ("default",), "src/decoder/bds/bds_4_4.rs": ("default",),
